@@ -281,6 +281,16 @@ def close (t : Nat) (fs : List Field) (w : BW) : Files :=
     shx := mainHeader (100 + w.idx.length) t w.bbox ++ w.idx
     dbf := writeAt w.dbf 0 (dbfHeader w.num fs) }
 
+/-! ## the `.dbf` in closed form -/
+
+/-- an attribute row as it lies in the `.dbf`: the deletion flag (a blank) and the cells -/
+def rowBytes (cells : List Bytes) : Bytes := 32 :: cells.flatten
+
+/-- the `.dbf` after `Close()` in closed form: header, then the rows (`LayoutProofs.lean` shows that the
+positioned writes of the writer produce it, record by record) -/
+def dbfOf (num : Nat) (fs : List Field) (rows : List (List Bytes)) : Bytes :=
+  dbfHeader num fs ++ (rows.map rowBytes).flatten
+
 /-! ## the reader (`shp.Reader` embedded in `shp.Decoder`) -/
 
 def rdU32s : Nat → Bytes → Option (List Nat × Bytes)
